@@ -132,6 +132,27 @@ type PickRig struct {
 	// per-quiescence bookkeeping
 	PublishesSinceQ int
 	OpsSinceQ       []PickOp
+
+	opts PickRigOpts
+}
+
+// PickRigOpts are optional extensions of the rig; the zero value is the plain
+// rig used by C23 / C32 "picker".
+type PickRigOpts struct {
+	// NewServer builds and starts the server of backend i (h is the Life
+	// handler of that backend). nil: StartServer(h).
+	NewServer func(r *PickRig, i int, h func(grpc.ServerStream) error) *Server
+	// HealthCheck[i]: the SubConn of backend i is created with HealthCheckEnabled.
+	HealthCheck []bool
+	// ServiceConfig is spliced in front of the other top-level members of the
+	// default service config (e.g. `"healthCheckConfig":{"serviceName":"x"},`).
+	ServiceConfig string
+	// DialOpts are appended to the dial options (later options win).
+	DialOpts []grpc.DialOption
+	// Op executes operation kinds the rig does not know; it reports whether it
+	// handled the operation. An op that can change the readiness of a SubConn
+	// must call r.SetDirty() before acting.
+	Op func(r *PickRig, o PickOp) bool
 }
 
 type backendDial struct {
@@ -248,19 +269,27 @@ func HandlerPickSeq(h *HCall) int {
 const retrySC = `"methodConfig":[{"name":[{"service":"verif.Life"}],"retryPolicy":{"maxAttempts":3,"initialBackoff":"0.001s","maxBackoff":"0.002s","backoffMultiplier":1.0,"retryableStatusCodes":["UNAVAILABLE"]}}],`
 
 // StartPickRig builds servers, controller and channel. Must run in a bubble.
-func StartPickRig(p PickPlan) (*PickRig, error) {
-	r := &PickRig{Plan: p, Handlers: NewHandlers(), byID: map[string]*RPCRec{}, NeverIdx: p.Backends}
+func StartPickRig(p PickPlan) (*PickRig, error) { return StartPickRigOpts(p, PickRigOpts{}) }
+
+// StartPickRigOpts is StartPickRig with optional extensions.
+func StartPickRigOpts(p PickPlan, opts PickRigOpts) (*PickRig, error) {
+	r := &PickRig{Plan: p, Handlers: NewHandlers(), byID: map[string]*RPCRec{}, NeverIdx: p.Backends, opts: opts}
 	addrs := make([]string, 0, p.Backends+1)
 	for i := 0; i < p.Backends; i++ {
 		tag := fmt.Sprintf("b%d", i)
 		addrs = append(addrs, tag)
-		r.Servers = append(r.Servers, StartServer(r.Handlers.HandleTagged(tag)))
+		if opts.NewServer != nil {
+			r.Servers = append(r.Servers, opts.NewServer(r, i, r.Handlers.HandleTagged(tag)))
+		} else {
+			r.Servers = append(r.Servers, StartServer(r.Handlers.HandleTagged(tag)))
+		}
 		r.dial = append(r.dial, &backendDial{up: true, wake: make(chan struct{})})
 	}
 	addrs = append(addrs, "never")
 	r.dial = append(r.dial, &backendDial{up: false, wake: make(chan struct{})})
 	r.Ctl = NewController("pickrig", addrs)
 	r.Ctl.PickFn = r.pickFn
+	r.Ctl.HealthCheck = opts.HealthCheck
 	dialer := func(ctx context.Context, addr string) (net.Conn, error) {
 		idx := -1
 		for i, a := range addrs {
@@ -293,11 +322,11 @@ func StartPickRig(p PickPlan) (*PickRig, error) {
 			}
 		}
 	}
-	sc := "{" + `"loadBalancingConfig":[{"` + PlanLBName + `":{}}]}`
+	sc := "{" + opts.ServiceConfig + `"loadBalancingConfig":[{"` + PlanLBName + `":{}}]}`
 	if p.Retry {
-		sc = "{" + retrySC + `"loadBalancingConfig":[{"` + PlanLBName + `":{}}]}`
+		sc = "{" + opts.ServiceConfig + retrySC + `"loadBalancingConfig":[{"` + PlanLBName + `":{}}]}`
 	}
-	cc, err := Dial(r.Ctl.Name, dialer, grpc.WithDefaultServiceConfig(sc))
+	cc, err := Dial(r.Ctl.Name, dialer, append([]grpc.DialOption{grpc.WithDefaultServiceConfig(sc)}, opts.DialOpts...)...)
 	if err != nil {
 		return nil, err
 	}
@@ -468,12 +497,20 @@ func (r *PickRig) Apply(o PickOp) {
 		r.dial[o.K%r.Plan.Backends].killAll()
 	case "sleep":
 		time.Sleep(time.Duration(o.Dur))
+	default:
+		if r.opts.Op != nil {
+			r.opts.Op(r, o)
+		}
 	}
 }
 
 // Dirty reports whether a down/up/kill operation was issued since the last
 // quiescence point (call with the rig locked).
 func (r *PickRig) Dirty() bool { return r.dirty }
+
+// SetDirty marks a readiness-changing operation as in flight until the next
+// quiescence point (for operations implemented by PickRigOpts.Op).
+func (r *PickRig) SetDirty() { r.setDirty() }
 
 func (r *PickRig) setDirty() {
 	r.mu.Lock()
@@ -611,7 +648,12 @@ func GenPickPlan(rt *rapid.T, profile string, maxOps int) PickPlan {
 // ended). It returns the first violation ("" if none) and the rig (already
 // torn down) for classification.
 func Drive(p PickPlan, oracle func(r *PickRig, final bool) string) (string, *PickRig, error) {
-	r, err := StartPickRig(p)
+	return DriveOpts(p, PickRigOpts{}, oracle)
+}
+
+// DriveOpts is Drive on a rig with optional extensions.
+func DriveOpts(p PickPlan, opts PickRigOpts, oracle func(r *PickRig, final bool) string) (string, *PickRig, error) {
+	r, err := StartPickRigOpts(p, opts)
 	if err != nil {
 		return "", nil, err
 	}
